@@ -10,21 +10,21 @@ set_option linter.unusedSectionVars false
 section
 variable {K V : Type} [DecidableEq K]
 
-theorem lookup_set (k k' : K) (v : V) (m : List (K × V)) :
-    lookup k' (set k v m) = if k = k' then some v else lookup k' m := by
+theorem lookup_upsert (k k' : K) (v : V) (m : List (K × V)) :
+    lookup k' (upsert k v m) = if k = k' then some v else lookup k' m := by
   induction m with
   | nil =>
-    by_cases h : k = k' <;> simp [set, lookup, h]
+    by_cases h : k = k' <;> simp [upsert, lookup, h]
   | cons e t ih =>
     obtain ⟨ke, ve⟩ := e
     by_cases h1 : ke = k
     · subst h1
-      by_cases h2 : ke = k' <;> simp [set, lookup, h2]
+      by_cases h2 : ke = k' <;> simp [upsert, lookup, h2]
     · by_cases h2 : ke = k'
       · subst h2
         have : ¬ k = ke := fun h => h1 h.symm
-        simp [set, lookup, h1, this]
-      · simp [set, lookup, h1, h2, ih]
+        simp [upsert, lookup, h1, this]
+      · simp [upsert, lookup, h1, h2, ih]
 
 theorem lookup_eq_none_iff (k : K) (m : List (K × V)) : lookup k m = none ↔ k ∉ keys m := by
   induction m with
@@ -102,7 +102,7 @@ theorem lookup_advance (c : Heights K) (k : K) (h : Nat) (k' : K) :
   unfold advance
   cases hc : lookup k c with
   | none =>
-    simp only [lookup_set, optMax]
+    simp only [lookup_upsert, optMax]
   | some cur =>
     by_cases hge : cur ≥ h
     · simp only [hge, if_true]
@@ -111,7 +111,7 @@ theorem lookup_advance (c : Heights K) (k : K) (h : Nat) (k' : K) :
         simp only [hc, optMax, if_true, Option.some.injEq]
         omega
       · simp [hk]
-    · simp only [hge, if_false, lookup_set]
+    · simp only [hge, if_false, lookup_upsert]
       by_cases hk : k = k'
       · simp only [hk, if_true, optMax, Option.some.injEq]
         omega
